@@ -27,6 +27,8 @@ SINGLE = 'rdm.calc._calc_rdm_crossnobis_single'
 
 
 def run(ctx, obs):
+    from ..rules import sweeps
+    sweeps.run(ctx, obs, 'C02')
     prog, dep = ctx.prog, ctx.dep
     for q in (CN, PCV):
         acc_named(ctx, obs, q)
